@@ -268,6 +268,43 @@ def burst_worker(a):
     return res
 
 
+def late_scripts(rng, n):
+    """Directed scripts around an answer that comes late: the service is asked early (password first), the request timer fires while
+    the client is still incomplete (no verdict yet, the soft holds are gone), THEN the answer arrives - as a reply of every kind or
+    as an unlinked notice - and only then the rest of the registration data.  Returns [(Config, [events])]."""
+    out = []
+    for k_ in range(n):
+        lp = ["login", "login-ipr", "combined"][k_ % 3]
+        cfg = proto.Config([("login.svc", lp)] + ([("drone.svc", "dronecheck")] if k_ % 2 else []), timeout=3600)
+        cid = rng.choice([5, 9, 70000])
+        tag = "%x_1" % cid
+        ev = [{"t": "announce", "id": cid, "ip": "192.0.2.5", "port": 1005}, {"t": "host", "id": cid, "name": "h5.example"}, {"t": "ident", "id": cid, "name": "id5"},
+              {"t": "password", "id": cid, "text": "%s acct5 pw" % rng.choice(["+x", "+", "-x"])}]
+        if lp == "combined":
+            ev += [{"t": "nick", "id": cid, "name": "n5"}]
+        ev += [{"t": "timeout", "id": cid}]
+        late = [{"t": "unlinked", "svc": "login.svc", "tag": tag, "text": "Server not online"}, {"t": "reply", "svc": "login.svc", "tag": tag, "text": "OK"},
+                {"t": "reply", "svc": "login.svc", "tag": tag, "text": "OK acct5"}, {"t": "reply", "svc": "login.svc", "tag": tag, "text": "AGAIN once more"},
+                {"t": "reply", "svc": "login.svc", "tag": tag, "text": "MORE prove it"}][(k_ // 3) % 5]
+        ev += [late]
+        if rng.random() < 0.3:
+            ev += [dict(late)]          # ... twice
+        rest = [{"t": "nick", "id": cid, "name": "n5"}, {"t": "userinfo", "id": cid, "user": "u5", "real": "R"}]
+        rng.shuffle(rest)
+        ev += rest
+        if k_ % 2:
+            ev += [{"t": "reply", "svc": "drone.svc", "tag": tag, "text": "OK"}]
+        ev += [{"t": "hurry", "id": cid}, {"t": "timeout", "id": cid}, {"t": "stats"}]
+        out.append((cfg, ev))
+    return out
+
+
+def late_jobs(build, seed, props, n, tag="late", per=10):
+    rng = random.Random("%s/%d" % (tag, seed))
+    scripts = [(c.to_json(), ev) for c, ev in late_scripts(rng, n)]
+    return [dict(build=build, scripts=scripts[i:i + per], props=props) for i in range(0, len(scripts), per)]
+
+
 def reload_jobs(build, seed, props, n, tag="rls", per=10):
     rng = random.Random("%s/%d" % (tag, seed))
     scripts = [(c.to_json(), ev) for c, ev in reload_scripts(rng, n)]
